@@ -48,14 +48,14 @@ def work(ctx, tier):
                     continue
                 outs = [[["exc", "res"][(i + j) % 2], gen.RETRYABLE[(i + j) % 4], None] for j in range(n)] + [["ok"]]
                 place = {"handler": hp, "before_sleep": bp, "sleeper": sp, "hooks": "none"}
-                sc = {"cfg": gen.mk_cfg(max_attempts=n + 1), "place": place, "bs_kind": ["sync", "async"][i % 2], "sleeper_kind": ["async", "sync"][(i // 2) % 2], "timeline": False, "poll": False,
+                sc = {"cfg": gen.mk_cfg(max_attempts=n + 1), "place": place, "bs_kind": ["sync", "async", "lambda"][i % 3], "sleeper_kind": ["async", "sync", "lambda", "callable"][(i // 3) % 4], "timeline": False, "poll": False,
                       "calls": [gen.mk_call(outs, strat_values=[0.25, 0.5, 1.0, 0.0, 3.0][:n + 1], handler=list(seq) if hp != "none" else None)], "fault": None}
                 for e in (rig.ENTRIES[i % 20], rig.ENTRIES[(i + 7) % 20]):
                     _one(ctx, sc, e, stats, sample=(i < 3))
                 ctx.inc("sweep_scenarios")
     n = (8000 if tier == "quick" else 220000) // ctx.nshards
     for k in range(n):
-        sc = gen.rand_scenario(rng, p_special=0.02, p_budget=0.3, p_handler=0.6, p_abort=0.15, p_before_sleep=0.6, ncalls=(1, 2), placements=True)
+        sc = gen.rand_scenario(rng, p_special=0.02, p_budget=0.3, p_handler=0.6, p_abort=0.15, p_before_sleep=0.6, ncalls=(1, 2), placements=True, slow_hooks=(k % 2 == 0), exotic_callables=True)
         for e in common.pick_entries(rng, rig.ENTRIES, 3):
             _one(ctx, sc, e, stats)
         ctx.inc("random_scenarios")
@@ -71,12 +71,13 @@ def conclude(ctx):
     }
     cells = [k for k in ctx.cnt if k.startswith("placement:")]
     floors["placement cells (of 64)"] = (len(cells), 60)
-    for fam in ("sync", "async-sync-hook/async-sleeper", "async-async-hook/async-sleeper", "async-async-hook/sync-sleeper"):
+    for fam in ("sync", "async-sync-hook/async-sleeper", "async-async-hook/async-sleeper", "async-async-hook/sync-sleeper", "async-lambda-hook/callable-sleeper", "async-sync-hook/lambda-sleeper", "async-async-hook/callable-sleeper"):
         floors["family:" + fam] = (ctx.cnt.get("family:" + fam, 0), 100)
     return dict(
         rule=(
             "bounded-exhaustive: every handler decision sequence sleep^k.(sleep|defer|abort), k < L, x the full 4x4x4 placement matrix {none, policy, call, both} for handler / before_sleep / sleeper "
-            "(entries rotated; decorator entries only have construction-time placement) + random scenarios with budgets, aborts, deadlines and awaitable hooks/sleepers; "
+            "(entries rotated; decorator entries only have construction-time placement) + random scenarios with budgets, aborts, deadlines, slow handlers/hooks (virtual time passes between the delay being computed and the sleeper being called) and awaitable hooks/sleepers of every shape "
+            "(async def, lambda returning a coroutine, object with async __call__); "
             "non-trivial = run with at least one granted retry whose protocol was checked; distinct = distinct (placement, hook kinds, decision lists, scripts, entry)"
         ),
         evaluations=ctx.cnt["calls"],
